@@ -392,6 +392,22 @@ theorem go_arith_translated :
     Go.translated = ["isSignedSumOverflow", "isUnsignedOverflow", "saturateValue", "signExtend", "isPowerOfTwo",
       "hashToIndex", "sipRound", "getRangeClamp", "lrangeClamp", "ltrimClamp", "addIntOverflowGuard", "fieldAddIntOverflowGuard"] := rfl
 
+/-- `signExtend(value, bits)` translated from the Go source on this run: on a field value of width 1..64 it returns the
+    two's-complement reading of the field — the model's `toSigned`, which `GET i<w>` and the signed `INCRBY` / `SET`
+    of `bfStep` report.  (Shown through `BitVec.signExtend`: `go_signExtend_eq`.) -/
+theorem bitfield_sign_extend_as_coded (w : Nat) (hw1 : 1 ≤ w) (hw : w ≤ 64) (u : Nat) (hu : u < 2 ^ w) :
+    (Go.signExtend (BitVec.ofNat 64 u) (BitVec.ofNat 64 w)).toInt = toSigned u w :=
+  go_signExtend w hw1 hw u hu
+
+/-- non-vacuity: 0xff as i8 is -1, 0x7f stays 127, a full-width value is itself -/
+theorem bitfield_sign_extend_examples :
+    (Go.signExtend 255#64 8#64).toInt = -1 ∧ (Go.signExtend 127#64 8#64).toInt = 127 ∧
+    (Go.signExtend 0x8000000000000000#64 64#64).toInt = -9223372036854775808 := by decide
+
+/-- `isPowerOfTwo` as translated: true exactly on the powers of two (the table sizes of the dictionary) -/
+theorem is_power_of_two_as_coded (n : BitVec 32) : Go.isPowerOfTwo n = true ↔ ∃ k, n.toNat = 2 ^ k :=
+  go_isPowerOfTwo n
+
 /-- non-vacuity: i8, 100 + 100 overflows, 100 + 27 does not; i64 at the edge -/
 theorem bitfield_signed_overflow_examples :
     Go.isSignedSumOverflow 100#64 100#64 8#64 = true ∧ Go.isSignedSumOverflow 100#64 27#64 8#64 = false ∧
